@@ -26,7 +26,8 @@ package autodiff
 //@   ite(is(ConstFloat64, a), a.(ConstFloat64), ite(is(ConstFloat32, a), a.(ConstFloat32),
 //@   uf(valOther, real, a)))))))
 
-//@ for $R,$F in (Real64,float64), (Real32,float32)
+//@ for $R,$F,$T in (Real64,float64,@), (Real32,float32,+)
+//@ propsdefault C01$T C08$T
 //@ spec RI_$R(a *$R) bool =
 //@   a != nil && a.N >= 0 && a.Order >= 0 &&
 //@   (a.Order >= 1 ==> len(a.Derivative) == a.N) &&
@@ -63,7 +64,8 @@ package autodiff
 // ---------------------------------------------------------------------------
 // allocation
 
-//@ for $R,$F in (Real64,float64)
+//@ for $R,$F,$T in (Real64,float64,@), (Real32,float32,+)
+//@ propsdefault C01$T C08$T
 //@ func (*$R).Alloc
 //@   requires RI_$R(a) && n >= 0 && order >= 0
 //@   ensures RI_$R(a) && a.N == n && a.Order == order && a.Value == old(a.Value)
@@ -86,7 +88,10 @@ package autodiff
 // ---------------------------------------------------------------------------
 // chain rule, one argument (C01: exact derivatives; C08: c may be a)
 
-//@ for $R,$F in (Real64,float64)
+//@ spec L1H(a ConstScalar, v1 real, v2 real, i int, j int) real = D(a, i) * D(a, j) * v2 + H(a, i, j) * v1
+
+//@ for $R,$F,$T in (Real64,float64,@), (Real32,float32,+)
+//@ propsdefault C01$T C08$T
 //@ spec owns_$R(c *$R, b int) bool =
 //@   (c.Order >= 1 && b == base(c.Derivative)) || (c.Order >= 2 && (exists i int :: 0 <= i && i < c.N && b == base(c.Hessian[i])))
 //@ spec disjoint_$R(c *$R, a *$R) bool =
@@ -97,7 +102,6 @@ package autodiff
 //@   (c.Order >= 2 && a.Order >= 2 ==> (forall i int, j int :: 0 <= i && i < c.N && 0 <= j && j < a.N ==> base(c.Hessian[i]) != base(a.Hessian[j])))
 //@ spec sep_$R(c *$R, a ConstScalar) bool = is(*$R, a) ==> a.(*$R) == c || disjoint_$R(c, a.(*$R))
 
-//@ spec L1H(a ConstScalar, v1 real, v2 real, i int, j int) real = D(a, i) * D(a, j) * v2 + H(a, i, j) * v1
 //@ spec lift1_post_$R(c *$R, a ConstScalar, v0 real, v1 real, v2 real) bool =
 //@   RI_$R(c) && c.Value == v0 && c.Order == old(order(a)) && c.N == old(nvars(a)) &&
 //@   (c.Order >= 1 ==> (forall i int :: 0 <= i && i < c.N ==> c.Derivative[i] == old(D(a, i)) * v1)) &&
@@ -139,7 +143,8 @@ package autodiff
 //@   H(a, i, j) * v10 + H(b, i, j) * v01 + D(a, i) * D(a, j) * v20 + D(b, i) * D(b, j) * v02 + D(a, i) * D(b, j) * v11 + D(b, i) * D(a, j) * v11
 //@ spec constNoVars(a ConstScalar) bool = order(a) == 0 ==> nvars(a) == 0
 
-//@ for $R,$F in (Real64,float64)
+//@ for $R,$F,$T in (Real64,float64,@), (Real32,float32,+)
+//@ propsdefault C01$T C08$T
 //@ spec lift2_post_$R(c *$R, a ConstScalar, b ConstScalar, v0 real, v10 real, v01 real, v11 real, v20 real, v02 real) bool =
 //@   RI_$R(c) && c.Value == v0 && c.Order == old(max(order(a), order(b))) && c.N == old(max(nvars(a), nvars(b))) &&
 //@   (c.Order >= 1 ==> (forall i int :: 0 <= i && i < c.N ==> c.Derivative[i] == old(L2D(a, b, v10, v01, i)))) &&
@@ -186,7 +191,8 @@ package autodiff
 //@ end
 
 // lazy variants (derived from the eager contracts by gen_scalar_contracts.py)
-//@ for $R,$F in (Real64,float64)
+//@ for $R,$F,$T in (Real64,float64,@), (Real32,float32,+)
+//@ propsdefault C01$T C08$T
 //@ func (*$R).monadicLazy [also: (*$R).realMonadicLazy]
 //@   model acmul
 //@   requires RI_$R(c) && RIc(a) && sep_$R(c, a)
@@ -252,14 +258,14 @@ package autodiff
 // operations: value and first/second derivative coefficients against the NAMED function
 // (formulas below are generated by symbolic differentiation; see /verif/spec/gen_scalar_contracts.py)
 
-//@ props C01 C02 C08 C09
-//@ for $R,$F in (Real64,float64)
-//@ func (*$R).Neg
+//@ for $R,$F,$T in (Real64,float64,@), (Real32,float32,+)
+//@ propsdefault C01$T C02$T C08$T C09$T
+//@ func (*$R).Neg [also: (*$R).NEG]
 //@   model split
 //@   requires RI_$R(c) && RIc(a) && sep_$R(c, a)
-//@   site monadic @v0 v0 == ((0 - 1) * val(a))
-//@   site monadic @v1 v1 == (-1)
-//@   site monadic @v2 v2 == 0
+//@   site monadic|realMonadic @v0 v0 == ((0 - 1) * val(a))
+//@   site monadic|realMonadic @v1 v1 == (-1)
+//@   site monadic|realMonadic @v2 v2 == 0
 //@   ensures isa(*$R, result) && as(*$R, result) == c
 //@   ensures lift1_post_$R(c, a, ((0 - 1) * old(val(a))), (-1), 0)
 //@   modifies $R.Value@{c}, $R.N@{c}, $R.Order@{c}, $R.Derivative@{c}, $R.Hessian@{c}, []$F@{q :: owns_$R(c, q)}
@@ -267,9 +273,9 @@ package autodiff
 //@ func (*$R).Sin
 //@   model split
 //@   requires RI_$R(c) && RIc(a) && sep_$R(c, a)
-//@   site monadicLazy @v0 v0 == sin(val(a))
-//@   site monadicLazy @v1 call(f1) == cos(val(a))
-//@   site monadicLazy @v2 call(f2) == ((0 - 1) * sin(val(a)))
+//@   site monadicLazy|realMonadicLazy @v0 v0 == sin(val(a))
+//@   site monadicLazy|realMonadicLazy @v1 call(f1) == cos(val(a))
+//@   site monadicLazy|realMonadicLazy @v2 call(f2) == ((0 - 1) * sin(val(a)))
 //@   ensures isa(*$R, result) && as(*$R, result) == c
 //@   ensures lift1_post_$R(c, a, sin(old(val(a))), cos(old(val(a))), ((0 - 1) * sin(old(val(a)))))
 //@   modifies $R.Value@{c}, $R.N@{c}, $R.Order@{c}, $R.Derivative@{c}, $R.Hessian@{c}, []$F@{q :: owns_$R(c, q)}
@@ -277,9 +283,9 @@ package autodiff
 //@ func (*$R).Sinh
 //@   model split
 //@   requires RI_$R(c) && RIc(a) && sep_$R(c, a)
-//@   site monadicLazy @v0 v0 == sinh(val(a))
-//@   site monadicLazy @v1 call(f1) == cosh(val(a))
-//@   site monadicLazy @v2 call(f2) == sinh(val(a))
+//@   site monadicLazy|realMonadicLazy @v0 v0 == sinh(val(a))
+//@   site monadicLazy|realMonadicLazy @v1 call(f1) == cosh(val(a))
+//@   site monadicLazy|realMonadicLazy @v2 call(f2) == sinh(val(a))
 //@   ensures isa(*$R, result) && as(*$R, result) == c
 //@   ensures lift1_post_$R(c, a, sinh(old(val(a))), cosh(old(val(a))), sinh(old(val(a))))
 //@   modifies $R.Value@{c}, $R.N@{c}, $R.Order@{c}, $R.Derivative@{c}, $R.Hessian@{c}, []$F@{q :: owns_$R(c, q)}
@@ -287,9 +293,9 @@ package autodiff
 //@ func (*$R).Cos
 //@   model split
 //@   requires RI_$R(c) && RIc(a) && sep_$R(c, a)
-//@   site monadicLazy @v0 v0 == cos(val(a))
-//@   site monadicLazy @v1 call(f1) == ((0 - 1) * sin(val(a)))
-//@   site monadicLazy @v2 call(f2) == ((0 - 1) * cos(val(a)))
+//@   site monadicLazy|realMonadicLazy @v0 v0 == cos(val(a))
+//@   site monadicLazy|realMonadicLazy @v1 call(f1) == ((0 - 1) * sin(val(a)))
+//@   site monadicLazy|realMonadicLazy @v2 call(f2) == ((0 - 1) * cos(val(a)))
 //@   ensures isa(*$R, result) && as(*$R, result) == c
 //@   ensures lift1_post_$R(c, a, cos(old(val(a))), ((0 - 1) * sin(old(val(a)))), ((0 - 1) * cos(old(val(a)))))
 //@   modifies $R.Value@{c}, $R.N@{c}, $R.Order@{c}, $R.Derivative@{c}, $R.Hessian@{c}, []$F@{q :: owns_$R(c, q)}
@@ -297,9 +303,9 @@ package autodiff
 //@ func (*$R).Cosh
 //@   model split
 //@   requires RI_$R(c) && RIc(a) && sep_$R(c, a)
-//@   site monadicLazy @v0 v0 == cosh(val(a))
-//@   site monadicLazy @v1 call(f1) == sinh(val(a))
-//@   site monadicLazy @v2 call(f2) == cosh(val(a))
+//@   site monadicLazy|realMonadicLazy @v0 v0 == cosh(val(a))
+//@   site monadicLazy|realMonadicLazy @v1 call(f1) == sinh(val(a))
+//@   site monadicLazy|realMonadicLazy @v2 call(f2) == cosh(val(a))
 //@   ensures isa(*$R, result) && as(*$R, result) == c
 //@   ensures lift1_post_$R(c, a, cosh(old(val(a))), sinh(old(val(a))), cosh(old(val(a))))
 //@   modifies $R.Value@{c}, $R.N@{c}, $R.Order@{c}, $R.Derivative@{c}, $R.Hessian@{c}, []$F@{q :: owns_$R(c, q)}
@@ -307,9 +313,9 @@ package autodiff
 //@ func (*$R).Tan
 //@   model split
 //@   requires RI_$R(c) && RIc(a) && sep_$R(c, a)
-//@   site monadicLazy @v0 v0 == tan(val(a))
-//@   site monadicLazy @v1 call(f1) == ((tan(val(a)) * tan(val(a))) + 1)
-//@   site monadicLazy @v2 call(f2) == (((2 * (tan(val(a)) * tan(val(a)))) + 2) * tan(val(a)))
+//@   site monadicLazy|realMonadicLazy @v0 v0 == tan(val(a))
+//@   site monadicLazy|realMonadicLazy @v1 call(f1) == ((tan(val(a)) * tan(val(a))) + 1)
+//@   site monadicLazy|realMonadicLazy @v2 call(f2) == (((2 * (tan(val(a)) * tan(val(a)))) + 2) * tan(val(a)))
 //@   ensures isa(*$R, result) && as(*$R, result) == c
 //@   ensures lift1_post_$R(c, a, tan(old(val(a))), ((tan(old(val(a))) * tan(old(val(a)))) + 1), (((2 * (tan(old(val(a))) * tan(old(val(a))))) + 2) * tan(old(val(a)))))
 //@   modifies $R.Value@{c}, $R.N@{c}, $R.Order@{c}, $R.Derivative@{c}, $R.Hessian@{c}, []$F@{q :: owns_$R(c, q)}
@@ -317,41 +323,41 @@ package autodiff
 //@ func (*$R).Tanh
 //@   model split
 //@   requires RI_$R(c) && RIc(a) && sep_$R(c, a)
-//@   site monadicLazy @v0 v0 == tanh(val(a))
-//@   site monadicLazy @v1 call(f1) == (1 + ((0 - 1) * (tanh(val(a)) * tanh(val(a)))))
-//@   site monadicLazy @v2 call(f2) == ((0 - 1) * (2 + ((-2) * (tanh(val(a)) * tanh(val(a))))) * tanh(val(a)))
+//@   site monadicLazy|realMonadicLazy @v0 v0 == tanh(val(a))
+//@   site monadicLazy|realMonadicLazy @v1 call(f1) == (1 + ((0 - 1) * (tanh(val(a)) * tanh(val(a)))))
+//@   site monadicLazy|realMonadicLazy @v2 call(f2) == ((0 - 1) * (2 + ((-2) * (tanh(val(a)) * tanh(val(a))))) * tanh(val(a)))
 //@   ensures isa(*$R, result) && as(*$R, result) == c
 //@   ensures lift1_post_$R(c, a, tanh(old(val(a))), (1 + ((0 - 1) * (tanh(old(val(a))) * tanh(old(val(a)))))), ((0 - 1) * (2 + ((-2) * (tanh(old(val(a))) * tanh(old(val(a)))))) * tanh(old(val(a)))))
 //@   modifies $R.Value@{c}, $R.N@{c}, $R.Order@{c}, $R.Derivative@{c}, $R.Hessian@{c}, []$F@{q :: owns_$R(c, q)}
 
-//@ func (*$R).Exp
+//@ func (*$R).Exp [also: (*$R).EXP]
 //@   model split
 //@   requires RI_$R(c) && RIc(a) && sep_$R(c, a)
-//@   site monadicLazy @v0 v0 == exp(val(a))
-//@   site monadicLazy @v1 call(f1) == exp(val(a))
-//@   site monadicLazy @v2 call(f2) == exp(val(a))
+//@   site monadicLazy|realMonadicLazy @v0 v0 == exp(val(a))
+//@   site monadicLazy|realMonadicLazy @v1 call(f1) == exp(val(a))
+//@   site monadicLazy|realMonadicLazy @v2 call(f2) == exp(val(a))
 //@   ensures isa(*$R, result) && as(*$R, result) == c
 //@   ensures lift1_post_$R(c, a, exp(old(val(a))), exp(old(val(a))), exp(old(val(a))))
 //@   modifies $R.Value@{c}, $R.N@{c}, $R.Order@{c}, $R.Derivative@{c}, $R.Hessian@{c}, []$F@{q :: owns_$R(c, q)}
 
-//@ func (*$R).Log
+//@ func (*$R).Log [also: (*$R).LOG]
 //@   model split
 //@   requires RI_$R(c) && RIc(a) && sep_$R(c, a)
 //@   requires val(a) > 0
-//@   site monadicLazy @v0 v0 == log(val(a))
-//@   site monadicLazy @v1 call(f1) == (1 / (val(a)))
-//@   site monadicLazy @v2 call(f2) == (((0 - 1)) / ((val(a) * val(a))))
+//@   site monadicLazy|realMonadicLazy @v0 v0 == log(val(a))
+//@   site monadicLazy|realMonadicLazy @v1 call(f1) == (1 / (val(a)))
+//@   site monadicLazy|realMonadicLazy @v2 call(f2) == (((0 - 1)) / ((val(a) * val(a))))
 //@   ensures isa(*$R, result) && as(*$R, result) == c
 //@   ensures lift1_post_$R(c, a, log(old(val(a))), (1 / (old(val(a)))), (((0 - 1)) / ((old(val(a)) * old(val(a))))))
 //@   modifies $R.Value@{c}, $R.N@{c}, $R.Order@{c}, $R.Derivative@{c}, $R.Hessian@{c}, []$F@{q :: owns_$R(c, q)}
 
-//@ func (*$R).Log1p
+//@ func (*$R).Log1p [also: (*$R).LOG1P]
 //@   model split
 //@   requires RI_$R(c) && RIc(a) && sep_$R(c, a)
 //@   requires val(a) > 0 - 1
-//@   site monadicLazy @v0 v0 == log1p(val(a))
-//@   site monadicLazy @v1 call(f1) == (1 / ((val(a) + 1)))
-//@   site monadicLazy @v2 call(f2) == (((0 - 1)) / (((val(a) + 1) * (val(a) + 1))))
+//@   site monadicLazy|realMonadicLazy @v0 v0 == log1p(val(a))
+//@   site monadicLazy|realMonadicLazy @v1 call(f1) == (1 / ((val(a) + 1)))
+//@   site monadicLazy|realMonadicLazy @v2 call(f2) == (((0 - 1)) / (((val(a) + 1) * (val(a) + 1))))
 //@   ensures isa(*$R, result) && as(*$R, result) == c
 //@   ensures lift1_post_$R(c, a, log1p(old(val(a))), (1 / ((old(val(a)) + 1))), (((0 - 1)) / (((old(val(a)) + 1) * (old(val(a)) + 1)))))
 //@   modifies $R.Value@{c}, $R.N@{c}, $R.Order@{c}, $R.Derivative@{c}, $R.Hessian@{c}, []$F@{q :: owns_$R(c, q)}
@@ -359,9 +365,9 @@ package autodiff
 //@ func (*$R).Erf
 //@   model split
 //@   requires RI_$R(c) && RIc(a) && sep_$R(c, a)
-//@   site monadicLazy @v0 v0 == erf(val(a))
-//@   site monadicLazy @v1 call(f1) == ((2 * (1 / exp((val(a) * val(a))))) / (SQRTPI))
-//@   site monadicLazy @v2 call(f2) == (((-4) * val(a) * (1 / exp((val(a) * val(a))))) / (SQRTPI))
+//@   site monadicLazy|realMonadicLazy @v0 v0 == erf(val(a))
+//@   site monadicLazy|realMonadicLazy @v1 call(f1) == ((2 * (1 / exp((val(a) * val(a))))) / (SQRTPI))
+//@   site monadicLazy|realMonadicLazy @v2 call(f2) == (((-4) * val(a) * (1 / exp((val(a) * val(a))))) / (SQRTPI))
 //@   ensures isa(*$R, result) && as(*$R, result) == c
 //@   ensures lift1_post_$R(c, a, erf(old(val(a))), ((2 * (1 / exp((old(val(a)) * old(val(a)))))) / (SQRTPI)), (((-4) * old(val(a)) * (1 / exp((old(val(a)) * old(val(a)))))) / (SQRTPI)))
 //@   modifies $R.Value@{c}, $R.N@{c}, $R.Order@{c}, $R.Derivative@{c}, $R.Hessian@{c}, []$F@{q :: owns_$R(c, q)}
@@ -369,9 +375,9 @@ package autodiff
 //@ func (*$R).Erfc
 //@   model split
 //@   requires RI_$R(c) && RIc(a) && sep_$R(c, a)
-//@   site monadicLazy @v0 v0 == erfc(val(a))
-//@   site monadicLazy @v1 call(f1) == (((-2) * (1 / exp((val(a) * val(a))))) / (SQRTPI))
-//@   site monadicLazy @v2 call(f2) == ((4 * val(a) * (1 / exp((val(a) * val(a))))) / (SQRTPI))
+//@   site monadicLazy|realMonadicLazy @v0 v0 == erfc(val(a))
+//@   site monadicLazy|realMonadicLazy @v1 call(f1) == (((-2) * (1 / exp((val(a) * val(a))))) / (SQRTPI))
+//@   site monadicLazy|realMonadicLazy @v2 call(f2) == ((4 * val(a) * (1 / exp((val(a) * val(a))))) / (SQRTPI))
 //@   ensures isa(*$R, result) && as(*$R, result) == c
 //@   ensures lift1_post_$R(c, a, erfc(old(val(a))), (((-2) * (1 / exp((old(val(a)) * old(val(a)))))) / (SQRTPI)), ((4 * old(val(a)) * (1 / exp((old(val(a)) * old(val(a)))))) / (SQRTPI)))
 //@   modifies $R.Value@{c}, $R.N@{c}, $R.Order@{c}, $R.Derivative@{c}, $R.Hessian@{c}, []$F@{q :: owns_$R(c, q)}
@@ -379,9 +385,9 @@ package autodiff
 //@ func (*$R).Gamma
 //@   model split
 //@   requires RI_$R(c) && RIc(a) && sep_$R(c, a)
-//@   site monadicLazy @v0 v0 == gamma(val(a))
-//@   site monadicLazy @v1 call(f1) == (digamma(val(a)) * gamma(val(a)))
-//@   site monadicLazy @v2 call(f2) == (((digamma(val(a)) * digamma(val(a))) * gamma(val(a))) + (gamma(val(a)) * trigamma(val(a))))
+//@   site monadicLazy|realMonadicLazy @v0 v0 == gamma(val(a))
+//@   site monadicLazy|realMonadicLazy @v1 call(f1) == (digamma(val(a)) * gamma(val(a)))
+//@   site monadicLazy|realMonadicLazy @v2 call(f2) == (((digamma(val(a)) * digamma(val(a))) * gamma(val(a))) + (gamma(val(a)) * trigamma(val(a))))
 //@   ensures isa(*$R, result) && as(*$R, result) == c
 //@   ensures lift1_post_$R(c, a, gamma(old(val(a))), (digamma(old(val(a))) * gamma(old(val(a)))), (((digamma(old(val(a))) * digamma(old(val(a)))) * gamma(old(val(a)))) + (gamma(old(val(a))) * trigamma(old(val(a))))))
 //@   modifies $R.Value@{c}, $R.N@{c}, $R.Order@{c}, $R.Derivative@{c}, $R.Hessian@{c}, []$F@{q :: owns_$R(c, q)}
@@ -390,66 +396,66 @@ package autodiff
 //@   model split
 //@   requires RI_$R(c) && RIc(a) && sep_$R(c, a)
 //@   requires val(a) > 0
-//@   site monadicLazy @v0 v0 == lgamma(val(a))
-//@   site monadicLazy @v1 call(f1) == digamma(val(a))
-//@   site monadicLazy @v2 call(f2) == trigamma(val(a))
+//@   site monadicLazy|realMonadicLazy @v0 v0 == lgamma(val(a))
+//@   site monadicLazy|realMonadicLazy @v1 call(f1) == digamma(val(a))
+//@   site monadicLazy|realMonadicLazy @v2 call(f2) == trigamma(val(a))
 //@   ensures isa(*$R, result) && as(*$R, result) == c
 //@   ensures lift1_post_$R(c, a, lgamma(old(val(a))), digamma(old(val(a))), trigamma(old(val(a))))
 //@   modifies $R.Value@{c}, $R.N@{c}, $R.Order@{c}, $R.Derivative@{c}, $R.Hessian@{c}, []$F@{q :: owns_$R(c, q)}
 
-//@ func (*$R).Add
+//@ func (*$R).Add [also: (*$R).ADD]
 //@   model split
 //@   requires RI_$R(c) && RIc(a) && RIc(b) && sep_$R(c, a) && sep_$R(c, b) && constNoVars(a) && constNoVars(b) && noRealloc_$R(c, a, b)
 //@   panics_when order(a) >= 1 && order(b) >= 1 && nvars(a) != nvars(b)
-//@   site dyadic @v0 v0 == (val(a) + val(b))
-//@   site dyadic @v10 v10 == 1
-//@   site dyadic @v01 v01 == 1
-//@   site dyadic @v11 v11 == 0
-//@   site dyadic @v20 v20 == 0
-//@   site dyadic @v02 v02 == 0
+//@   site dyadic|realDyadic @v0 v0 == (val(a) + val(b))
+//@   site dyadic|realDyadic @v10 v10 == 1
+//@   site dyadic|realDyadic @v01 v01 == 1
+//@   site dyadic|realDyadic @v11 v11 == 0
+//@   site dyadic|realDyadic @v20 v20 == 0
+//@   site dyadic|realDyadic @v02 v02 == 0
 //@   ensures isa(*$R, result) && as(*$R, result) == c
 //@   ensures lift2_post_$R(c, a, b, (old(val(a)) + old(val(b))), 1, 1, 0, 0, 0)
 //@   modifies $R.Value@{c}, $R.N@{c}, $R.Order@{c}, $R.Derivative@{c}, $R.Hessian@{c}, []$F@{q :: owns_$R(c, q)}
 
-//@ func (*$R).Sub
+//@ func (*$R).Sub [also: (*$R).SUB]
 //@   model split
 //@   requires RI_$R(c) && RIc(a) && RIc(b) && sep_$R(c, a) && sep_$R(c, b) && constNoVars(a) && constNoVars(b) && noRealloc_$R(c, a, b)
 //@   panics_when order(a) >= 1 && order(b) >= 1 && nvars(a) != nvars(b)
-//@   site dyadic @v0 v0 == (val(a) + ((0 - 1) * val(b)))
-//@   site dyadic @v10 v10 == 1
-//@   site dyadic @v01 v01 == (-1)
-//@   site dyadic @v11 v11 == 0
-//@   site dyadic @v20 v20 == 0
-//@   site dyadic @v02 v02 == 0
+//@   site dyadic|realDyadic @v0 v0 == (val(a) + ((0 - 1) * val(b)))
+//@   site dyadic|realDyadic @v10 v10 == 1
+//@   site dyadic|realDyadic @v01 v01 == (-1)
+//@   site dyadic|realDyadic @v11 v11 == 0
+//@   site dyadic|realDyadic @v20 v20 == 0
+//@   site dyadic|realDyadic @v02 v02 == 0
 //@   ensures isa(*$R, result) && as(*$R, result) == c
 //@   ensures lift2_post_$R(c, a, b, (old(val(a)) + ((0 - 1) * old(val(b)))), 1, (-1), 0, 0, 0)
 //@   modifies $R.Value@{c}, $R.N@{c}, $R.Order@{c}, $R.Derivative@{c}, $R.Hessian@{c}, []$F@{q :: owns_$R(c, q)}
 
-//@ func (*$R).Mul
+//@ func (*$R).Mul [also: (*$R).MUL]
 //@   model split
 //@   requires RI_$R(c) && RIc(a) && RIc(b) && sep_$R(c, a) && sep_$R(c, b) && constNoVars(a) && constNoVars(b) && noRealloc_$R(c, a, b)
 //@   panics_when order(a) >= 1 && order(b) >= 1 && nvars(a) != nvars(b)
-//@   site dyadic @v0 v0 == (val(a) * val(b))
-//@   site dyadic @v10 v10 == val(b)
-//@   site dyadic @v01 v01 == val(a)
-//@   site dyadic @v11 v11 == 1
-//@   site dyadic @v20 v20 == 0
-//@   site dyadic @v02 v02 == 0
+//@   site dyadic|realDyadic @v0 v0 == (val(a) * val(b))
+//@   site dyadic|realDyadic @v10 v10 == val(b)
+//@   site dyadic|realDyadic @v01 v01 == val(a)
+//@   site dyadic|realDyadic @v11 v11 == 1
+//@   site dyadic|realDyadic @v20 v20 == 0
+//@   site dyadic|realDyadic @v02 v02 == 0
 //@   ensures isa(*$R, result) && as(*$R, result) == c
 //@   ensures lift2_post_$R(c, a, b, (old(val(a)) * old(val(b))), old(val(b)), old(val(a)), 1, 0, 0)
 //@   modifies $R.Value@{c}, $R.N@{c}, $R.Order@{c}, $R.Derivative@{c}, $R.Hessian@{c}, []$F@{q :: owns_$R(c, q)}
 
-//@ func (*$R).Div
+//@ func (*$R).Div [also: (*$R).DIV]
 //@   model split
 //@   requires RI_$R(c) && RIc(a) && RIc(b) && sep_$R(c, a) && sep_$R(c, b) && constNoVars(a) && constNoVars(b) && noRealloc_$R(c, a, b)
 //@   requires val(b) != 0
 //@   panics_when order(a) >= 1 && order(b) >= 1 && nvars(a) != nvars(b)
-//@   site dyadic @v0 v0 == ((val(a)) / (val(b)))
-//@   site dyadic @v10 v10 == (1 / (val(b)))
-//@   site dyadic @v01 v01 == (((0 - 1) * val(a)) / ((val(b) * val(b))))
-//@   site dyadic @v11 v11 == (((0 - 1)) / ((val(b) * val(b))))
-//@   site dyadic @v20 v20 == 0
-//@   site dyadic @v02 v02 == ((2 * val(a)) / ((val(b) * val(b) * val(b))))
+//@   site dyadic|realDyadic @v0 v0 == ((val(a)) / (val(b)))
+//@   site dyadic|realDyadic @v10 v10 == (1 / (val(b)))
+//@   site dyadic|realDyadic @v01 v01 == (((0 - 1) * val(a)) / ((val(b) * val(b))))
+//@   site dyadic|realDyadic @v11 v11 == (((0 - 1)) / ((val(b) * val(b))))
+//@   site dyadic|realDyadic @v20 v20 == 0
+//@   site dyadic|realDyadic @v02 v02 == ((2 * val(a)) / ((val(b) * val(b) * val(b))))
 //@   ensures isa(*$R, result) && as(*$R, result) == c
 //@   ensures lift2_post_$R(c, a, b, ((old(val(a))) / (old(val(b)))), (1 / (old(val(b)))), (((0 - 1) * old(val(a))) / ((old(val(b)) * old(val(b))))), (((0 - 1)) / ((old(val(b)) * old(val(b))))), 0, ((2 * old(val(a))) / ((old(val(b)) * old(val(b)) * old(val(b))))))
 //@   modifies $R.Value@{c}, $R.N@{c}, $R.Order@{c}, $R.Derivative@{c}, $R.Hessian@{c}, []$F@{q :: owns_$R(c, q)}
